@@ -135,6 +135,9 @@ pub struct State {
     pub hot: Vec<&'static str>,
     pub panics: Vec<String>,
     pub known_hits: BTreeMap<String, u64>,
+    /// when set, exceeding the step cap is a violation with this clause (a livelock the
+    /// property forbids) instead of a harness error
+    pub cap_clause: Option<&'static str>,
     /// event sequence number at which each task last passed each label
     label_seq: HashMap<(usize, &'static str), u64>,
 }
@@ -396,8 +399,17 @@ impl Shared {
             st.steps += 1;
             PROGRESS.fetch_add(1, Ordering::Relaxed);
             if st.steps > st.step_cap {
-                let v = Violation::new(&st.prop.clone(), "step_cap", "", "step cap exceeded");
-                fatal(v, &st, true);
+                match st.cap_clause {
+                    Some(c) => {
+                        let spinning = st.tasks[me].role;
+                        let v = Violation::new(&st.prop.clone(), c, spinning, format!("no quiescence within {} scheduling steps: task `{}` keeps running at `{label}`", st.step_cap, st.tasks[me].name));
+                        fatal(v, &st, false);
+                    }
+                    None => {
+                        let v = Violation::new(&st.prop.clone(), "step_cap", "", "step cap exceeded");
+                        fatal(v, &st, true);
+                    }
+                }
             }
             st.tasks[me].state = TState::Waiting(cond);
             st.tasks[me].label = label;
@@ -538,6 +550,7 @@ impl Sim {
             hot: Vec::new(),
             panics: Vec::new(),
             known_hits: BTreeMap::new(),
+            cap_clause: None,
             label_seq: HashMap::new(),
         };
         let sh = Arc::new(Shared {
